@@ -456,7 +456,8 @@ def run_manager_case(case):
                                    "copied": s3, "direct": s4, "after": after}
                     return res
     # --- dump -> load into a fresh manager over equivalent containers
-    data2 = {k: (v if k == "f" else copy.deepcopy(v)) for k, v in data1.items()}
+    data2 = copy.deepcopy({k: v for k, v in data1.items() if k != "f"})   # one deepcopy: aliasing between containers is kept
+    data2["f"] = Funcs
     m2, ns2 = mk_data_manager(data2, kinds)
     err = safe(lambda: m2.load(d1))
     if err:
